@@ -83,6 +83,8 @@ type BlockPipeline struct {
 	wg              sync.WaitGroup
 	mu              sync.Mutex   // protects Start/Stop
 	submitMu        sync.RWMutex // protects Submit against concurrent Stop
+	// submitSem serialises sequence allocation and the send in Submit
+	submitSem chan struct{}
 
 	// outstanding counts items accepted by Submit that have not yet been
 	// processed by the apply stage, wherever they currently are (channels,
@@ -135,6 +137,7 @@ func (p *BlockPipeline) Start(ctx context.Context) error {
 	// Create channels
 	bufSize := p.config.PrefetchBufferSize
 	p.submitChan = make(chan *BlockItem, bufSize)
+	p.submitSem = make(chan struct{}, 1)
 	p.decodedChan = make(chan *BlockItem, bufSize)
 	p.resultsChan = make(chan *BlockItem, bufSize)
 	p.errorsChan = make(chan error, bufSize)
@@ -233,10 +236,21 @@ func (p *BlockPipeline) Submit(ctx context.Context, blockType uint, rawCbor []by
 		return ErrPipelineStopped
 	}
 
-	// Allocate sequence number only once, then send.
-	// We use a single blocking select to avoid sequence gaps that would occur
-	// if we allocated in a non-blocking attempt that failed.
-	item := NewBlockItem(blockType, rawCbor, tip, p.sequenceCounter.Add(1)-1)
+	// Sequence numbers must be contiguous: the apply stage waits for every
+	// number in turn, so a number that is allocated but never sent would stall
+	// all later blocks. Serialise allocation and send with a one-slot semaphore
+	// (acquired with a select so that waiting still honours both contexts) and
+	// only advance the counter once the send has succeeded.
+	select {
+	case p.submitSem <- struct{}{}:
+	case <-ctx.Done():
+		return ctx.Err()
+	case <-p.ctx.Done():
+		return ErrPipelineStopped
+	}
+	defer func() { <-p.submitSem }()
+
+	item := NewBlockItem(blockType, rawCbor, tip, p.sequenceCounter.Load())
 
 	verifPt("submit.afterSeq", item)
 	// Count the item before the send so that it is never invisible to
@@ -244,12 +258,13 @@ func (p *BlockPipeline) Submit(ctx context.Context, blockType uint, rawCbor []by
 	p.outstanding.Add(1)
 	select {
 	case p.submitChan <- item:
+		p.sequenceCounter.Add(1)
 		p.metrics.RecordSubmit()
 		return nil
 	case <-ctx.Done():
 		p.outstanding.Add(-1)
-		// Context cancelled while waiting - sequence gap is acceptable
-		// because this typically means shutdown.
+		// Context cancelled while waiting - the sequence number was not
+		// consumed and will be used by the next successful Submit.
 		return ctx.Err()
 	case <-p.ctx.Done():
 		p.outstanding.Add(-1)
